@@ -30,6 +30,11 @@ def queries_for(edges):
         for q in gl.QS:
             for incl in (False, True):
                 qs.append((['q', q, v, incl], ['q', q, t, incl]))
+    # the source may be given as an object that merely carries the id (or as a CURIE): what comes back are the graph's NODES
+    for v in nodes[:4]:
+        for q in gl.QS:
+            qs.append((['q', q, v, True], ['q', q, gl.mk_arg('idf', v), True]))
+            qs.append((['q', q, v, True], ['q', q, v, True]))
     # ... and the closures once more after the graph has answered predicates for nodes it already traversed completely
     if len(nodes) <= 8 and len(edges) % 2 == 1:
         for a in nodes:
@@ -87,6 +92,7 @@ def run(ctx):
     for i in range(0, len(cases), 600):
         gl.evaluate_cases(ctx, cases[i:i + 600], 'random', THEOREM, nontrivial)
     big_graphs(ctx, rng, thorough)
+    gl.factory_after_failure(ctx, rng, THEOREM)
     # long chain / wide star
     for n in ((200, 400) if thorough else (120,)):
         chain = [(f'HP:{i:07d}', f'HP:{i - 1:07d}') for i in range(1, n)]
